@@ -181,6 +181,10 @@ def _exhaust_generator(executor, saver, load_wrapper, data_loader, rechunk, _tim
 
     mailbox.cleanup()
     executor.shutdown(wait=True)
+    # The saver ran in its own thread: a failure there (e.g. of the last
+    # write) is only recorded on the saver, so check before we move anything
+    if saver.got_exception:
+        raise saver.got_exception
 
 
 def _get_meta_data_and_compressor(backend, source_directory, compressor, target_size_mb):
